@@ -9,6 +9,7 @@ import (
 	"crypto/x509/pkix"
 	"errors"
 	"fmt"
+	"io"
 	"math/big"
 	"os"
 	"strconv"
@@ -95,7 +96,8 @@ type c03Op struct {
 }
 
 func c03Ops() []c03Op {
-	return []c03Op{{"Sign(RSA-2048 k1)", 1}, {"Sign(RSA-3072 k3)", 3}, {"Sign(RSA-4096 k4)", 4}, {"reparse", 0}, {"Sign(RSA-2048 k1, CA-issued leaf certificate)", 5}}
+	return []c03Op{{"Sign(RSA-2048 k1)", 1}, {"Sign(RSA-3072 k3)", 3}, {"Sign(RSA-4096 k4)", 4}, {"reparse", 0}, {"Sign(RSA-2048 k1, CA-issued leaf certificate)", 5},
+		{"AppendSignature(signature by RSA-3072 k3 made on a re-parsed copy)", -3}}
 }
 
 type c03World struct {
@@ -429,7 +431,18 @@ func c03Run(c *hx.Ctx, tier, unit string) {
 	certOf := map[int]*x509.Certificate{1: keys.C(1), 3: keys.C(3), 4: keys.C(4), 5: keys.Leaf(1)}
 	keyOf := map[int]int{1: 1, 3: 3, 4: 4, 5: 1}
 
-	build := func(path []int) (*c03World, error, *hx.Panic) {
+	// observe: every read-only operation on the object (the histories are run once without and once
+	// with these between the steps: they must not influence what the next step does)
+	observe := func(p *authenticode.PECOFFBinary) {
+		for _, k := range c03KeyIDs {
+			p.Verify(certOf[k])
+		}
+		p.Hash(crypto.SHA256)
+		p.Signatures()
+		p.Bytes()
+		io.Copy(io.Discard, p.Open())
+	}
+	buildObs := func(path []int, observed bool) (*c03World, error, *hx.Panic) {
 		w := &c03World{signers: map[int]int{}, orig: orig, nThird: nThird, digest0: digest0}
 		var err error
 		pn := hx.Try(func() {
@@ -438,10 +451,25 @@ func c03Run(c *hx.Ctx, tier, unit string) {
 				return
 			}
 			for _, oi := range path {
+				if observed {
+					observe(w.p)
+				}
 				op := ops[oi]
 				if op.key == 0 {
 					w.p, err = authenticode.Parse(bytes.NewReader(w.p.Bytes()))
 					w.inplace = 0
+				} else if op.key < 0 {
+					var cp *authenticode.PECOFFBinary
+					if cp, err = authenticode.Parse(bytes.NewReader(w.p.Bytes())); err != nil {
+						return
+					}
+					var sig []byte
+					if sig, err = cp.Sign(memoSignerFor(keyOf[-op.key]), certOf[-op.key]); err != nil {
+						return
+					}
+					err = w.p.AppendSignature(sig)
+					w.inplace++
+					w.signers[-op.key]++
 				} else {
 					_, err = w.p.Sign(memoSignerFor(keyOf[op.key]), certOf[op.key])
 					w.inplace++
@@ -454,6 +482,7 @@ func c03Run(c *hx.Ctx, tier, unit string) {
 		})
 		return w, err, pn
 	}
+	build := func(path []int) (*c03World, error, *hx.Panic) { return buildObs(path, false) }
 	hist := func(path []int) []string {
 		h := []string{"image: " + in.name}
 		for _, oi := range path {
@@ -506,6 +535,44 @@ func c03Run(c *hx.Ctx, tier, unit string) {
 							return
 						}
 					}
+				}
+				// the streamed form: one reader, two readers read in turns, a reader interrupted by Bytes()
+				if got, _ := io.ReadAll(obj.p.Open()); !bytes.Equal(got, out) {
+					v = obj.name + ": Open() does not deliver the bytes of Bytes()"
+					return
+				}
+				r1, r2 := obj.p.Open(), obj.p.Open()
+				var g1, g2 []byte
+				chunk := make([]byte, 97)
+				for done1, done2 := false, false; !done1 || !done2; {
+					if n, e := r1.Read(chunk); n > 0 || e == nil {
+						g1 = append(g1, chunk[:n]...)
+					} else {
+						done1 = true
+					}
+					if n, e := r2.Read(chunk[:61]); n > 0 || e == nil {
+						g2 = append(g2, chunk[:n]...)
+					} else {
+						done2 = true
+					}
+					if len(g1) > 2*len(out)+1000 || len(g2) > 2*len(out)+1000 {
+						break
+					}
+				}
+				if !bytes.Equal(g1, out) || !bytes.Equal(g2, out) {
+					v = obj.name + ": two readers from Open() read in turns do not both deliver the bytes of Bytes()"
+					d = map[string]any{"len1": len(g1), "len2": len(g2), "want": len(out)}
+					return
+				}
+				r3 := obj.p.Open()
+				half := make([]byte, len(out)/2)
+				n3, _ := io.ReadFull(r3, half)
+				obj.p.Bytes()
+				obj.p.Hash(crypto.SHA256)
+				rest, _ := io.ReadAll(r3)
+				if !bytes.Equal(append(half[:n3:n3], rest...), out) {
+					v = obj.name + ": a reader from Open() that is read across calls of Bytes()/Hash() does not deliver the bytes of Bytes()"
+					return
 				}
 				sigs, err := obj.p.Signatures()
 				total := w.nThird
@@ -566,6 +633,20 @@ func c03Run(c *hx.Ctx, tier, unit string) {
 					c.Violation("C03 "+v+" [after "+opKind(op)+"]", map[string]any{"history": hist(path), "detail": d})
 					continue
 				}
+				// the same history with every read-only operation called between the steps
+				if wo, erro, pno := buildObs(path, true); pno != nil || erro != nil {
+					c.Outcome("state-violation")
+					c.Violation("C03 "+opKind(op)+" fails when read-only operations (Verify, Hash, Signatures, Bytes, Open) were called on the object between the steps", map[string]any{"history": hist(path), "error": fmt.Sprint(erro, pno)})
+					continue
+				} else if !bytes.Equal(wo.p.Bytes(), w.p.Bytes()) {
+					c.Outcome("state-violation")
+					c.Violation("C03 the output differs when read-only operations (Verify, Hash, Signatures, Bytes, Open) were called on the object between the steps", map[string]any{"history": hist(path)})
+					continue
+				} else if v, d := judge(wo, path); v != "" {
+					c.Outcome("state-violation")
+					c.Violation("C03 "+v+" [after "+opKind(op)+", with read-only operations called between the steps]", map[string]any{"history": hist(path), "detail": d})
+					continue
+				}
 				k := string(w.p.Bytes()) + "#" + strconv.Itoa(w.inplace)
 				if seen[k] {
 					c.Outcome("revisit")
@@ -592,6 +673,9 @@ func c03Run(c *hx.Ctx, tier, unit string) {
 func opKind(op c03Op) string {
 	if op.key == 0 {
 		return "reparse"
+	}
+	if op.key < 0 {
+		return "AppendSignature"
 	}
 	return "Sign"
 }
